@@ -21,7 +21,13 @@ from harness.drivers import handshake as H
 HOST = 'gw.example.test'
 ALIAS = 'alias.example.test'
 ADDR = '10.1.2.3'
-NOW = 1_900_000_000
+import time as _time
+# the harness clock starts at the real time the process started (whatever
+# froze a clock at import / start time froze it here) and is advanced
+# between connection attempts
+NOW = int(_time.time())
+FAR = 10 ** 7
+TICKS = [0, 3600, 90000, 17, 86400 * 40]
 PORTS = {'def': 22, 'nondef': 2222}
 PASSWORD = 'correct horse battery'
 
@@ -138,9 +144,23 @@ def pattern_forms(match, port, lookup_host, real_host):
 # the server's presentation
 # ---------------------------------------------------------------------------
 
-WINDOWS = {'in': (NOW - 1000, NOW + 1000), 'startsNow': (NOW, NOW + 1000),
-           'endsNext': (NOW - 1000, NOW + 1), 'notYet': (NOW + 1, NOW + 1000),
-           'endsNow': (NOW - 1000, NOW), 'expired': (NOW - 1000, NOW - 1)}
+def window(win, t):
+    """[valid_after, valid_before) of an abstract window around clock t;
+    windows that end reach far back, windows that begin reach far ahead."""
+    return {'in': (t - FAR, t + FAR), 'startsNow': (t, t + FAR),
+            'endsNext': (t - FAR, t + 1), 'notYet': (t + 1, t + FAR),
+            'endsNow': (t - FAR, t), 'expired': (t - FAR, t - 1)}[win]
+
+
+def abs_window(win):
+    """Windows of the `time` focus: absolute, laid around the clock at
+    start (model unit = 1000 s); the clock then moves over them."""
+    U = 1000
+    return {'in': (NOW - 2 * U, NOW + 7 * U), 'startsNow': (NOW, NOW + 7 * U),
+            'endsNext': (NOW - 2 * U, NOW + U),
+            'notYet': (NOW + U, NOW + 7 * U),
+            'endsNow': (NOW - 2 * U, NOW),
+            'expired': (NOW - 2 * U, NOW - U)}[win]
 
 
 ADDR6 = 'fd00::1:2:3'
@@ -175,7 +195,7 @@ def via_forms(via, name, addr):
 
 
 def make_presentation(pres, ktype, catype, principal_host, variant,
-                      real_host=None):
+                      real_host=None, t=None, absolute=False):
     """-> (keypair to give the server, description dict)."""
     k1 = key('K1', ktype)
     k2 = key('K2', ktype)
@@ -184,7 +204,8 @@ def make_presentation(pres, ktype, catype, principal_host, variant,
         kp = asyncssh.load_keypairs([k1])[0]
     else:
         ca = key(pres['ca'], catype)
-        va, vb = WINDOWS[pres['win']]
+        va, vb = abs_window(pres['win']) if absolute else \
+            window(pres['win'], NOW if t is None else t)
         princ = {'covers': [[principal_host], ['zz.example', principal_host]
                             ][variant % 2],
                  'other': [['zz.example'], [ADDR + '9'],
@@ -209,6 +230,7 @@ def make_presentation(pres, ktype, catype, principal_host, variant,
                 valid_before=vb)
         info['principals'] = princ
         info['window'] = (va - NOW, vb - NOW)
+        info['clock'] = (NOW if t is None else t) - NOW
         kp = [p for p in asyncssh.load_keypairs([(k1, cert)])
               if p.has_cert][0]
         if not pres['certSig']:
@@ -316,8 +338,14 @@ def attempt(case, variant=0, workdir=None, opt=None):
         text.append('zz.example ssh-ed25519 AAAAnotbase64!!')   # unparsable
     kh_text = '\n'.join(text) + '\n'
 
+    # the clock at this connection attempt
+    if case.get('now') is not None and case.get('time_focus'):
+        clock_t = NOW + (case['now'] - 2) * 1000
+    else:
+        clock_t = NOW + TICKS[(v // 7) % len(TICKS)]
     kp, info = make_presentation(pres, ktype, catype, lookup_host, v,
-                                 real_host)
+                                 real_host, t=clock_t,
+                                 absolute=bool(case.get('time_focus')))
 
     r = Result()
     r.forms = forms
@@ -528,7 +556,7 @@ def attempt(case, variant=0, workdir=None, opt=None):
                                  orig_port):
             r.jump_forwarded.append((dest_host, dest_port))
             return True
-    clock.now = NOW
+    clock.now = clock_t
     st = {}
 
     async def go():
